@@ -3,11 +3,14 @@ package main
 import (
 	"fmt"
 
+	"verif/harness/internal/crashpt"
 	"verif/harness/internal/ctlsim"
 )
 
 func runOtherWorker(engine string, wa workerArgs) error {
 	switch engine {
+	case "crashpt":
+		return crashpt.RunWorker(wa.prop, wa.seed, wa.worker, wa.cases, wa.scratch, wa.out, wa.extra)
 	case "ctlsim":
 		return ctlsim.RunWorker(wa.prop, wa.seed, wa.worker, wa.cases, wa.out)
 	}
